@@ -46,7 +46,8 @@ class Scen:
             elif p[0] == "deterministic":
                 self.deterministic = p[1] == "true"
         sp = os.path.join(d, sid + ".impl.stdout")
-        self.diagnostics = len([l for l in open(sp, errors="replace").read().split("\n") if l]) if os.path.exists(sp) else 0
+        # the parser's diagnostics of the load itself (what follows the marker is the harness re-reading the text for its oracle)
+        self.diagnostics = len([l for l in open(sp, errors="replace").read().split("@@oracle-reparse")[0].split("\n") if l]) if os.path.exists(sp) else 0
         self.model = None
         self.report = {}
 
